@@ -90,7 +90,7 @@ CLAIMED = {
             "Trusted: the model in checks/c27.py. Exhaustive within the bound; selector-symbolic.",
             "selector-symbolic bounded exhaustive exploration of the real classes (symx) vs dict model", "3 C27"),
     "C03": (MC,
-            "REDUCED CLAIM. For a catalogue of 14 (quick) / 26 (thorough) concrete codec configurations with concrete tiny pictures, the "
+            "REDUCED CLAIM. For a catalogue of 28 concrete codec configurations with concrete tiny pictures, the "
             "first picture number is a symbolic 32-bit value (all 2^32 starting numbers, explicit or first-explicit-then-AUTO): the real "
             "make_sequence -> autofill_and_serialise_stream -> parse_stream pipeline is executed symbolically; accepted, one decoded "
             "picture per input in order, z3 proves the decoded picture numbers, video parameters / coding mode compared, lossless content equal.",
